@@ -1,7 +1,8 @@
 (** C06 — the inbound path never stalls: no head-of-line blocking.
     Same model as C01. "Never stalls" = the single reader (adapter read loop / NATS subscription
     callback) has an enabled step in EVERY state, with no premise about any caller: slow, timed
-    out, abandoned requests and any number of duplicates cannot matter. *)
+    out, abandoned requests and any number of duplicates cannot matter. [tk] ranges over the
+    adapter and the NATS transport. *)
 From Coq Require Import ZArith List.
 From FV Require Import Model.Registry Proofs.RegistryProofs.
 Import ListNotations.
@@ -9,24 +10,40 @@ Open Scope Z_scope.
 
 (** in every state whatsoever the reader can take its next step: hand over (or drop) the frame it
     looked up, or accept the next frame *)
-Theorem c06_reader_never_blocks : forall s,
+Theorem c06_reader_never_blocks : forall tk s,
   match rd s with
-  | RLooked _ _ => exists s', step false s EDeliver = Some s'
-  | RIdle => forall f, exists s', step false s (EArrive f) = Some s'
+  | RLooked _ _ => exists s', step tk false s EDeliver = Some s'
+  | RIdle => forall f, exists s', step tk false s (EArrive f) = Some s'
   end.
 Proof. exact reader_never_blocks. Qed.
 Print Assumptions c06_reader_never_blocks.
 
+(** NATS: an idle reader (subscription callback) also accepts any status 503 message *)
+Theorem c06_reader_accepts_503_nats : forall s op,
+  rd s = RIdle -> exists s', step KNats false s (EArrive503 op) = Some s'.
+Proof. exact reader_accepts_503. Qed.
+Print Assumptions c06_reader_accepts_503_nats.
+
 (** the response to an in-flight request whose channel is empty is delivered and taken, regardless
     of what was received before and of the state of every other request *)
-Theorem c06_fresh_response_delivered : forall s i f,
+Theorem c06_fresh_response_delivered : forall tk s i f,
   rd s = RIdle -> (i < ncallers s)%nat ->
   c_phase (callers s i) = CSelect -> c_chan (callers s i) = [] ->
   reg_lookup (reg s) (f_op f) = Some i ->
-  exists s', run false s [EArrive f; EDeliver; ETake i TResult] = Some s'
+  exists s', run tk false s [EArrive f; EDeliver; ETake i TResult] = Some s'
              /\ c_phase (callers s' i) = CTook TResult (Some f).
 Proof. exact fresh_response_delivered. Qed.
 Print Assumptions c06_fresh_response_delivered.
+
+(** NATS: likewise a 503 for a waiting request reaches it and it returns SERVICE_NOT_AVAILABLE *)
+Theorem c06_fresh_503_delivered_nats : forall s i op,
+  rd s = RIdle -> (i < ncallers s)%nat ->
+  c_phase (callers s i) = CSelect -> c_chan (callers s i) = [] ->
+  reg_lookup (reg s) op = Some i ->
+  exists s', run KNats false s [EArrive503 op; EDeliver; ETake i TResult; EUnregister i] = Some s'
+             /\ c_phase (callers s' i) = CDone ONotAvail.
+Proof. exact fresh_503_delivered. Qed.
+Print Assumptions c06_fresh_503_delivered_nats.
 
 (** a frame is dropped only when its target already holds a frame with the same op id *)
 Theorem c06_drop_is_harmless : forall s j f x xs,
@@ -35,24 +52,19 @@ Proof. exact drop_is_harmless. Qed.
 Print Assumptions c06_drop_is_harmless.
 
 (** the pinned tree (blocking channel send in dispatch) is refuted: a reachable state in which the
-    reader is blocked and stays blocked along EVERY continuation - no frame is ever looked up or
-    delivered again (three frames for one op id: DESIGN.md F4, replayed on the real code) *)
-Theorem c06_reader_can_wedge_refuted :
-  exists evs s, run true (init (fun _ => 7) (fun _ => true) 1) evs = Some s /\ wedged s
-    /\ forall evs' s', run true s evs' = Some s' ->
-         wedged s' /\ ~ In EDeliver evs' /\ (forall f, ~ In (EArrive f) evs').
+    reader is blocked and stays blocked along EVERY continuation - no frame (and, on NATS, no status
+    message) is ever looked up or delivered again (three frames for one op id: DESIGN.md F4,
+    replayed on the real code). The same schedule wedges both transports. *)
+Theorem c06_reader_can_wedge_refuted : forall tk,
+  exists evs s, run tk true (init (fun _ => 7) (fun _ => true) 1) evs = Some s /\ wedged s
+    /\ forall evs' s', run tk true s evs' = Some s' ->
+         wedged s' /\ ~ In EDeliver evs' /\ (forall f, ~ In (EArrive f) evs') /\ (forall op, ~ In (EArrive503 op) evs').
 Proof.
+  intros tk.
   exists [ERegister 0; ERelease 0; EArrive {| f_op := 7; f_tag := 1 |}; EDeliver; ETake 0 TResult;
           EArrive {| f_op := 7; f_tag := 2 |}; EDeliver; EArrive {| f_op := 7; f_tag := 3 |}].
-  eexists. split; [vm_compute; reflexivity|].
-  assert (W : wedged {| callers := upd (upd (upd (upd (fun _ => {| c_op := 7; c_phase := CNew; c_chan := []; c_send := SNone; c_deadline := true |}) 0
-                 {| c_op := 7; c_phase := CParked; c_chan := []; c_send := SNone; c_deadline := true |}) 0
-                 {| c_op := 7; c_phase := CSelect; c_chan := []; c_send := SParked; c_deadline := true |}) 0
-                 {| c_op := 7; c_phase := CSelect; c_chan := [{| f_op := 7; f_tag := 1 |}]; c_send := SParked; c_deadline := true |}) 0
-                 {| c_op := 7; c_phase := CTook TResult (Some {| f_op := 7; f_tag := 1 |}); c_chan := []; c_send := SParked; c_deadline := true |};
-               ncallers := 1; reg := [(7, 0%nat)]; rd := RIdle |} -> True) by auto.
-  clear W. split.
-  - eexists 0%nat, _, _, _. vm_compute. repeat split.
-  - intros evs' s' H. eapply wedged_forever; [|exact H]. eexists 0%nat, _, _, _. vm_compute. repeat split.
+  destruct tk; (eexists; split; [vm_compute; reflexivity|]; split;
+    [eexists 0%nat, _, _, _; vm_compute; repeat split
+    |intros evs' s' H; eapply wedged_forever; [|exact H]; eexists 0%nat, _, _, _; vm_compute; repeat split]).
 Qed.
 Print Assumptions c06_reader_can_wedge_refuted.
